@@ -333,10 +333,22 @@ theorem mono_scheduleRpc (s : State) (c : Call) : Mono s (scheduleRpc s c).1 := 
   have : g ≠ s.next := by omega
   simp [scheduleRpc, alloc, State.setTask, State.st, this]
 
-theorem mono_newAction (s : State) (fn : Call) : Mono s (newAction s fn).1 := by
+theorem mono_newAction (s : State) (fn : ActFn) : Mono s (newAction s fn).1 := by
   refine ⟨by simp [newAction, alloc, State.setAct], fun g hg _ => ?_⟩
   have : g ≠ s.next := by omega
   simp [newAction, alloc, State.setAct, State.st, this]
+
+theorem mono_actFinish (s : State) (a : Nat) (c : Call) : Mono s (actFinish s a c).1 := by
+  unfold actFinish
+  split
+  · split
+    · exact Mono.refl _
+    · exact mono_setOutcome ..
+  · split
+    · split
+      · exact Mono.refl _
+      · exact mono_setOutcome ..
+    · exact Mono.refl _
 
 theorem mono_runAction (s : State) (a : Nat) : Mono s (runAction s a).1 := by
   unfold runAction
@@ -345,11 +357,10 @@ theorem mono_runAction (s : State) (a : Nat) : Mono s (runAction s a).1 := by
   · split
     · exact Mono.refl _
     · split
-      · exact mono_captureSetExc ..
-      · exact (mono_setAct ..).trans (mono_captureSetResult ..)
+      · exact mono_actFinish ..
       · split
-        · exact (mono_setAct ..).trans (mono_captureSetExc ..)
-        · exact mono_setAct ..
+        · exact ((mono_setAct ..).trans (mono_cancelFut ..)).trans (mono_actFinish ..)
+        · exact (mono_setAct ..).trans (mono_actFinish ..)
 
 theorem mono_envStep (d) (fuel : Nat) (s : State) (ev) : Mono s (envStep d fuel s ev) := by
   cases ev with
